@@ -424,14 +424,16 @@ def resultEvent (r : AppResult) : Omaha.Event :=
   | .deferred => eventDeferred
   | .failed _ => eventError 2
 
+def isOffered (a : Resp.App) : Bool :=
+  match a.updateCheck with
+  | some u => u.status == .ok
+  | none => false
+
 def alignResults (apps : List Resp.App) (results : List AppResult) : List AppAction :=
   match apps with
   | [] => []
   | a :: rest =>
-    let offered : Bool := match a.updateCheck with
-      | some u => u.status == .ok
-      | none => false
-    if offered then
+    if isOffered a then
       match results with
       | r :: rs =>
         (match r with
@@ -440,11 +442,6 @@ def alignResults (apps : List Resp.App) (results : List AppResult) : List AppAct
          | .failed _ => .installError) :: alignResults rest rs
       | [] => .noUpdate :: alignResults rest []          -- contract violation (Rust would panic)
     else .noUpdate :: alignResults rest results
-
-def isOffered (a : Resp.App) : Bool :=
-  match a.updateCheck with
-  | some u => u.status == .ok
-  | none => false
 
 def offeredApps (r : Resp.Response) : List Resp.App := r.apps.filter isOffered
 
@@ -678,15 +675,18 @@ def closeCheck (r : Except CheckErr (List AppResp)) (w : World) : World :=
   let w := yieldEv (.result r) w
   persistData w
 
-/-- `start_update_check`, success branch. -/
-def finishCheckOk (ok : CheckOk) (w : World) : World :=
+/-- `start_update_check`, success branch, up to the closing events. -/
+def prepareOk (ok : CheckOk) (w : World) : World :=
   let w := setLastUpdate w
   let w := reportAttemptsCheck true w
   let w := { w with apps := updateFromOmaha w.apps ok.responses }
-  let w := match installSuccess ok.responses with
-    | some s => reportAttemptsInstall s w
-    | none => w
-  closeCheck (.ok ok.responses) w
+  match installSuccess ok.responses with
+  | some s => reportAttemptsInstall s w
+  | none => w
+
+/-- `start_update_check`, success branch. -/
+def finishCheckOk (ok : CheckOk) (w : World) : World :=
+  closeCheck (.ok ok.responses) (prepareOk ok w)
 
 /-- The failure reason metric: 0 Omaha, 1 Network, 4 Internal. -/
 def failureReason : CheckErr → Nat
@@ -703,12 +703,15 @@ def talkedToOmaha : CheckErr → Bool
   | .installPlan => true
   | .omahaRequest _ => false
 
-/-- `start_update_check`, failure branch. -/
-def finishCheckErr (e : CheckErr) (w : World) : World :=
+/-- `start_update_check`, failure branch, up to the closing events. -/
+def prepareErr (e : CheckErr) (w : World) : World :=
   let w := if talkedToOmaha e then setLastUpdate w else w
   let w := metric (.failureReason (failureReason e)) w
-  let w := reportAttemptsCheck false w
-  closeCheck (.error e) w
+  reportAttemptsCheck false w
+
+/-- `start_update_check`, failure branch. -/
+def finishCheckErr (e : CheckErr) (w : World) : World :=
+  closeCheck (.error e) (prepareErr e w)
 
 /-- `start_update_check`: returns whether a reboot is needed; `none` = outside the model. -/
 def startUpdateCheck (params : RequestParams) (w : World) : Option Bool × World :=
